@@ -542,7 +542,25 @@ impl<K: Kern<D>, const D: usize> World<K, D> {
             }
             Op::FlipK1Insert { cell, w, uuid } => {
                 let (ck, adv) = self.cell_key(before, *cell);
-                let coords = if adv { vec![0.125; D] } else { self.resolve_point(before, &PointSpec::CellBary(*cell, w.clone())) };
+                let mut coords = if adv { vec![0.125; D] } else { self.resolve_point(before, &PointSpec::CellBary(*cell, w.clone())) };
+                // optional trailing entries (facet index, step): place the vertex OUTSIDE the cell, beyond the
+                // facet opposite vertex i, at facet centroid + step/4 x (centroid - vertex i).  The Edit API is
+                // combinatorial and accepts such a split; C07's structural clauses must hold for it too.
+                if !adv && w.len() >= D + 3 && !before.cells.is_empty() {
+                    let c = &before.cells[pick(*cell, before.cells.len())];
+                    let vi = before.vindex();
+                    let pts: Vec<&Vec<f64>> = c.verts.iter().filter_map(|vk| vi.get(vk).map(|&ix| &before.verts[ix].coords)).collect();
+                    if pts.len() == D + 1 {
+                        let i = w[D + 1] as usize % (D + 1);
+                        let t = 1.0 + (w[D + 2] % 8) as f64;
+                        coords = (0..D)
+                            .map(|j| {
+                                let cen = pts.iter().enumerate().filter(|(k, _)| *k != i).map(|(_, p)| p[j]).sum::<f64>() / D as f64;
+                                cen + t / 4.0 * (cen - pts[i][j])
+                            })
+                            .collect();
+                    }
+                }
                 self.next_id += 1;
                 let u = match uuid {
                     UuidSpec::Live(i) if !before.verts.is_empty() => before.verts[pick(*i, before.verts.len())].uuid,
